@@ -1,9 +1,479 @@
 package props
 
-import "verif/internal/core"
+import (
+	"fmt"
+	"net"
+	"net/http"
+	"path/filepath"
+	"strings"
+	"sync"
+	"sync/atomic"
+	"time"
 
-// C07 — stub, replaced by the real check.
+	"verif/internal/core"
+	"verif/internal/fakes"
+	"verif/internal/rawhttp"
+)
+
+// c07Faults is the catalogue: name -> injection point.
+var c07Faults = []struct{ Point, Kind string }{
+	{"list", "500"}, {"list", "404"}, {"list", "garbage-json"}, {"list", "non-string-json"}, {"list", "oversized"}, {"list", "reset"}, {"list", "null-ids"},
+	{"fetch", "404"}, {"fetch", "500x3"}, {"fetch", "500x2-then-ok"}, {"fetch", "not-http"}, {"fetch", "no-start-time"}, {"fetch", "truncated-body"}, {"fetch", "reset-mid-body"},
+	{"backend", "refused"},
+	{"backend", "garbage-status"}, {"backend", "huge-headers"}, {"backend", "close-before-headers"}, {"backend", "rst"},
+	{"backend", "short-content-length"}, {"backend", "rst-mid-chunk"}, {"backend", "bad-chunk-size"}, {"backend", "one-byte-then-trailers"}, {"backend", "lying-content-encoding"},
+	{"upload", "500x3"}, {"upload", "404"}, {"upload", "reset-at-0"}, {"upload", "reset-at-4096"}, {"upload", "reset-at-end"}, {"upload", "stall"},
+	{"shim", "data-malformed-json"}, {"shim", "data-unknown-session"}, {"shim", "poll-unknown-session"}, {"shim", "close-unknown-session"}, {"shim", "open-backend-refuses-upgrade"}, {"shim", "open-malformed-url"}, {"shim", "data-wrong-shape"},
+}
+
+type c07Lane struct {
+	name string
+	cfg  []string
+	shim bool
+	sess bool
+}
+
+// C07 — one failing request never takes down the agent or other requests.
 func C07(r *core.Run) {
-	r.Broken("check not implemented yet")
-	r.Finish(1)
+	r.Level = "fault_enumeration"
+	r.SetRule("real agent (plain; shim+sessions+banner) + scripted fake proxy + scripted raw backend; 8 lanes of healthy token requests run continuously while faults from an enumerated catalogue (injection point x kind: pending list, fetch, backend connect/headers/body, upload, shim endpoints) are injected one after another at scripted positions, each repeated; judged: agent process alive and crash-free, every healthy probe before/during/after answered correctly, unreachable backend => uploaded 502; class = (agent config, injection point, kind)")
+	r.Assume("a fault may fail its own request in any way; probes have a 20 s progress bound (normal latency is milliseconds)")
+	agentBin := r.MustBuild(r.BuildRepoBinary("./agent", "agent"))
+	md, err := fakes.NewMetadata()
+	if err != nil {
+		r.Broken(err.Error())
+		r.Finish(1)
+	}
+	defer md.Close()
+	lanes := []c07Lane{
+		{name: "plain", cfg: []string{"--proxy-timeout=3s"}},
+		{name: "full", cfg: []string{"--proxy-timeout=3s", "--shim-path=shim", "--shim-websockets=true", "--session-cookie-name=SID", "--disable-ssl-for-test=true", "--inject-banner=<b>banner</b>"}, shim: true, sess: true},
+	}
+	reps := r.Pick(1, 4)
+	var wg sync.WaitGroup
+	for li, ln := range lanes {
+		wg.Add(1)
+		go func(li int, ln c07Lane) {
+			defer wg.Done()
+			c07Lane_(r, agentBin, md, li, ln, reps)
+		}(li, ln)
+	}
+	wg.Wait()
+	r.JudgeRaces(core.ParseRaceLogs(filepath.Join(r.WorkDir, "race-")))
+	r.Finish(r.Pick(40, 200))
+}
+
+func c07Lane_(r *core.Run, agentBin string, md *fakes.Metadata, li int, ln c07Lane, reps int) {
+	backend, err := newTokBackend()
+	if err != nil {
+		r.Broken(err.Error())
+		return
+	}
+	defer backend.Srv.Close()
+	backend.Override = func(req *rawhttp.Message, conn net.Conn) (bool, bool) {
+		if !strings.HasPrefix(req.Target, "/fault/") {
+			return false, false
+		}
+		parts := strings.Split(req.Target, "/")
+		kind := parts[2]
+		rst := func() {
+			if tc, ok := conn.(*net.TCPConn); ok {
+				tc.SetLinger(0)
+			}
+		}
+		switch kind {
+		case "garbage-status":
+			conn.Write([]byte("BLAH BLAH\r\n\r\n"))
+		case "huge-headers":
+			var w rawhttp.Builder
+			w.Line("HTTP/1.1 200 OK")
+			for i := 0; i < 1200; i++ {
+				w.Field(fmt.Sprintf("X-Pad-%d", i), strings.Repeat("p", 1000))
+			}
+			w.End()
+			conn.Write(w.Bytes())
+		case "close-before-headers":
+		case "rst":
+			rst()
+		case "short-content-length":
+			conn.Write([]byte("HTTP/1.1 200 OK\r\nContent-Length: 1000\r\n\r\n" + strings.Repeat("x", 100)))
+		case "rst-mid-chunk":
+			conn.Write([]byte("HTTP/1.1 200 OK\r\nTransfer-Encoding: chunked\r\n\r\n3e8\r\n" + strings.Repeat("x", 100)))
+			time.Sleep(20 * time.Millisecond)
+			rst()
+		case "bad-chunk-size":
+			conn.Write([]byte("HTTP/1.1 200 OK\r\nTransfer-Encoding: chunked\r\n\r\nzz\r\nabc\r\n0\r\n\r\n"))
+		case "one-byte-then-trailers":
+			conn.Write([]byte("HTTP/1.1 200 OK\r\nTrailer: X-A, X-B\r\nTransfer-Encoding: chunked\r\n\r\n1\r\nx\r\n0\r\nX-A: 1\r\nX-B: 2\r\n\r\n"))
+			return true, true
+		case "lying-content-encoding":
+			conn.Write([]byte("HTTP/1.1 200 OK\r\nContent-Encoding: gzip\r\nContent-Length: 9\r\n\r\nnot-gzip!"))
+			return true, true
+		}
+		return true, false
+	}
+	px, err := fakes.NewProxy()
+	if err != nil {
+		r.Broken(err.Error())
+		return
+	}
+	defer px.Close()
+	px.ListWait = 30 * time.Millisecond
+	var listFault atomic.Value // string: fault for the next list call
+	listFault.Store("")
+	var fmu sync.Mutex
+	fetchCount := map[string]int{}
+	upCount := map[string]int{}
+	hijack := func(w http.ResponseWriter) net.Conn {
+		if hj, ok := w.(http.Hijacker); ok {
+			c, _, _ := hj.Hijack()
+			return c
+		}
+		return nil
+	}
+	px.OnList = func(w http.ResponseWriter, req *http.Request) bool {
+		k, _ := listFault.Load().(string)
+		if k == "" {
+			return false
+		}
+		listFault.Store("")
+		switch k {
+		case "500":
+			http.Error(w, "scripted", 500)
+		case "404":
+			http.Error(w, "scripted", 404)
+		case "garbage-json":
+			w.Write([]byte(`["abc", {`))
+		case "non-string-json":
+			w.Write([]byte(`[1, 2, {"a": null}]`))
+		case "null-ids":
+			w.Write([]byte(`[null, "", "no-such-id"]`))
+		case "oversized":
+			w.Write([]byte(`["` + strings.Repeat("x", 1100000) + `"]`))
+		case "reset":
+			if c := hijack(w); c != nil {
+				if tc, ok := c.(*net.TCPConn); ok {
+					tc.SetLinger(0)
+				}
+				c.Close()
+			}
+		}
+		return true
+	}
+	faultOf := func(id, point string) string {
+		// IDs look like "F|<point>|<kind>|<n>"
+		p := strings.Split(id, "|")
+		if len(p) >= 3 && p[0] == "F" && p[1] == point {
+			return p[2]
+		}
+		return ""
+	}
+	px.OnFetch = func(id string, w http.ResponseWriter, req *http.Request) bool {
+		k := faultOf(id, "fetch")
+		if k == "" {
+			return false
+		}
+		fmu.Lock()
+		fetchCount[id]++
+		n := fetchCount[id]
+		fmu.Unlock()
+		start := time.Now().Format(time.RFC3339Nano)
+		switch k {
+		case "404":
+			http.Error(w, "scripted", 404)
+		case "500x3":
+			http.Error(w, "scripted", 500)
+		case "500x2-then-ok":
+			if n <= 2 {
+				http.Error(w, "scripted", 502)
+				return true
+			}
+			return false
+		case "not-http":
+			w.Header().Set("X-Inverting-Proxy-Request-Start-Time", start)
+			w.Write([]byte("this is not an http request\r\n\r\n"))
+		case "no-start-time":
+			w.Write(tokRequest("GET", "nostart", 10, 0, "x", nil, nil))
+		case "truncated-body":
+			if c := hijack(w); c != nil {
+				c.Write([]byte("HTTP/1.1 200 OK\r\nX-Inverting-Proxy-Request-Start-Time: " + start + "\r\nContent-Length: 500\r\n\r\nPOST /t/trunc/r10/d0/x HTTP/1.1\r\nHost: x\r\nContent-Length: 300\r\n\r\nabc"))
+				c.Close()
+			}
+		case "reset-mid-body":
+			if c := hijack(w); c != nil {
+				c.Write([]byte("HTTP/1.1 200 OK\r\nX-Inverting-Proxy-Request-Start-Time: " + start + "\r\nContent-Length: 500\r\n\r\nPOST /t/rst/r10/d0/x HTTP/1.1\r\nHost: x\r\nContent-Length: 300\r\n\r\nabc"))
+				time.Sleep(10 * time.Millisecond)
+				if tc, ok := c.(*net.TCPConn); ok {
+					tc.SetLinger(0)
+				}
+				c.Close()
+			}
+		}
+		return true
+	}
+	px.OnResponse = func(id string, w http.ResponseWriter, req *http.Request) bool {
+		k := faultOf(id, "upload")
+		if k == "" {
+			return false
+		}
+		fmu.Lock()
+		upCount[id]++
+		fmu.Unlock()
+		readN := func(n int) {
+			buf := make([]byte, 4096)
+			got := 0
+			for got < n {
+				k, err := req.Body.Read(buf)
+				got += k
+				if err != nil {
+					return
+				}
+			}
+		}
+		rst := func() {
+			if c := hijack(w); c != nil {
+				if tc, ok := c.(*net.TCPConn); ok {
+					tc.SetLinger(0)
+				}
+				c.Close()
+			}
+		}
+		switch k {
+		case "500x3":
+			http.Error(w, "scripted", 500)
+		case "404":
+			http.Error(w, "scripted", 404)
+		case "reset-at-0":
+			rst()
+		case "reset-at-4096":
+			readN(4096)
+			rst()
+		case "reset-at-end":
+			readN(1 << 30)
+			rst()
+		case "stall":
+			time.Sleep(4 * time.Second) // longer than --proxy-timeout=3s
+			http.Error(w, "late", 500)
+		}
+		return true
+	}
+	agent, err := startAgent(r, agentBin, "agent7-"+ln.name, md, px.URL(), backend.Srv.Addr(), "b7-"+ln.name, ln.cfg...)
+	if err != nil {
+		r.Broken(err.Error())
+		return
+	}
+	defer agent.Kill()
+
+	// healthy lanes
+	var current atomic.Value
+	current.Store("start-up")
+	stop := make(chan struct{})
+	var probes, probeFails int64
+	var pwg sync.WaitGroup
+	probe := func(tok string, size int) (bool, string) {
+		px.Enqueue(tok, tokRequest("GET", tok, size, 0, "c07.example", nil, nil), "")
+		up, ok := px.Wait(tok, 20*time.Second)
+		if !ok || up.Resp == nil {
+			return false, "no complete response uploaded within 20s"
+		}
+		bad := checkTokResponse(up.Resp, "GET", tok, size)
+		if ln.sess {
+			var keep []string
+			for _, b := range bad {
+				if !strings.HasPrefix(b, "Set-Cookie") {
+					keep = append(keep, b)
+				}
+			}
+			bad = keep
+		}
+		if len(bad) > 0 {
+			return false, strings.Join(bad, "; ")
+		}
+		return true, ""
+	}
+	for lane := 0; lane < 8; lane++ {
+		pwg.Add(1)
+		go func(lane int) {
+			defer pwg.Done()
+			for i := 0; ; i++ {
+				select {
+				case <-stop:
+					return
+				default:
+				}
+				during, _ := current.Load().(string)
+				tok := fmt.Sprintf("p%ds%dl%di%d", li, r.Seed, lane, i)
+				ok, why := probe(tok, []int{10, 1000, 5000, 40000}[i%4])
+				atomic.AddInt64(&probes, 1)
+				after, _ := current.Load().(string)
+				if !ok {
+					atomic.AddInt64(&probeFails, 1)
+					r.Violate("C07:healthy-request-disturbed:"+ln.name+":during="+during, fmt.Sprintf("healthy probe %s issued during fault [%s] (finished during [%s]) failed: %s", tok, during, after, why), nil, nil)
+					if !agent.Alive() {
+						return
+					}
+				}
+				time.Sleep(2 * time.Millisecond)
+			}
+		}(lane)
+	}
+	// wait until the lanes work
+	deadline := time.Now().Add(30 * time.Second)
+	for atomic.LoadInt64(&probes) < 16 && time.Now().Before(deadline) && agent.Alive() {
+		time.Sleep(20 * time.Millisecond)
+	}
+	if atomic.LoadInt64(&probes) < 16 {
+		r.Broken("C07 lane " + ln.name + ": healthy lanes never started: " + core.Trunc(tail(agent.Log(), 800), 800))
+		close(stop)
+		return
+	}
+	// inject the catalogue
+	inj := 0
+	statusSeen := map[string]map[int]int{}
+	for rep := 0; rep < reps; rep++ {
+		for _, f := range c07Faults {
+			if f.Point == "shim" && !ln.shim {
+				continue
+			}
+			if !agent.Alive() {
+				break
+			}
+			label := f.Point + "/" + f.Kind
+			current.Store(label)
+			before := atomic.LoadInt64(&probes)
+			id := fmt.Sprintf("F|%s|%s|%d-%d", f.Point, f.Kind, rep, inj)
+			inj++
+			var up *fakes.Upload
+			var got bool
+			switch f.Point {
+			case "list":
+				for k := 0; k < 1+rep; k++ { // consecutive failures in later repetitions
+					listFault.Store(f.Kind)
+					for w := 0; w < 500; w++ {
+						if s, _ := listFault.Load().(string); s == "" {
+							break
+						}
+						time.Sleep(2 * time.Millisecond)
+					}
+				}
+			case "fetch":
+				px.Enqueue(id, tokRequest("GET", "ff"+fmt.Sprint(inj), 100, 0, "c07.example", nil, nil), "")
+				up, got = px.Wait(id, 1500*time.Millisecond)
+			case "upload":
+				px.Enqueue(id, tokRequest("GET", "fu"+fmt.Sprint(inj), []int{100, 5000, 20000}[inj%3], 0, "c07.example", nil, nil), "")
+				wait := 1500 * time.Millisecond
+				if f.Kind == "stall" {
+					wait = 6 * time.Second
+				}
+				px.Wait(id, wait)
+			case "backend":
+				if f.Kind == "refused" {
+					// close the backend listener, issue the request, reopen on the same port
+					port := backend.Srv.Port()
+					current.Store("backend/refused(listener-down)")
+					// healthy lanes will fail while the only backend is down: pause them by draining via a dedicated agent instead
+					up, got = c07Refused(r, agentBin, md, ln, li, inj)
+					_ = port
+				} else {
+					var w rawhttp.Builder
+					w.Line(fmt.Sprintf("GET /fault/%s/%d HTTP/1.1", f.Kind, inj)).Field("Host", "c07.example").Field("Accept-Encoding", "identity").End()
+					px.Enqueue(id, w.Bytes(), "")
+					up, got = px.Wait(id, 3*time.Second)
+				}
+			case "shim":
+				var body, path string
+				switch f.Kind {
+				case "data-malformed-json":
+					path, body = "/shim/data", `[{"id": "1", "msg": `
+				case "data-unknown-session":
+					path, body = "/shim/data", `[{"id":"999999","msg":"hello"}]`
+				case "data-wrong-shape":
+					path, body = "/shim/data", `{"id":"1","msg":[1,2,3]}`
+				case "poll-unknown-session":
+					path, body = "/shim/poll", `{"id":"999999"}`
+				case "close-unknown-session":
+					path, body = "/shim/close", `{"id":"999999"}`
+				case "open-backend-refuses-upgrade":
+					path, body = "/shim/open", "ws://x/fault/close-before-headers/ws"
+				case "open-malformed-url":
+					path, body = "/shim/open", "http://[::1"
+				}
+				var w rawhttp.Builder
+				w.Line("POST "+path+" HTTP/1.1").Field("Host", "c07.example").Field("Content-Length", fmt.Sprint(len(body))).End()
+				w.WriteString(body)
+				px.Enqueue(id, w.Bytes(), "")
+				up, got = px.Wait(id, 5*time.Second)
+			}
+			if got && up != nil && up.Resp != nil {
+				if statusSeen[label] == nil {
+					statusSeen[label] = map[int]int{}
+				}
+				statusSeen[label][up.Resp.Status]++
+			}
+			if f.Point == "backend" && f.Kind == "refused" {
+				if !got || up == nil || up.Resp == nil {
+					r.Violate("C07:unreachable-backend:no-response", fmt.Sprintf("config %s: request to an unreachable backend produced no uploaded response within 10s", ln.name), nil, nil)
+				} else if up.Resp.Status != 502 {
+					r.Violate("C07:unreachable-backend:not-502", fmt.Sprintf("config %s: request to an unreachable backend was answered %d, not 502", ln.name, up.Resp.Status), nil, nil)
+				}
+			}
+			// let at least a few probes complete under/after this fault
+			for w := 0; w < 2000 && atomic.LoadInt64(&probes) < before+8 && agent.Alive(); w++ {
+				time.Sleep(2 * time.Millisecond)
+			}
+			r.Case(fmt.Sprintf("%s|%s|%s", ln.name, f.Point, f.Kind))
+			if !agent.Alive() {
+				r.Violate("C07:agent-terminated:"+ln.name+":"+label, fmt.Sprintf("config %s: the agent process exited during/after fault %s: %s", ln.name, label, core.Trunc(tail(agent.Log(), 1200), 1200)), nil, nil)
+				break
+			}
+		}
+	}
+	current.Store("after-all-faults")
+	after := atomic.LoadInt64(&probes)
+	for w := 0; w < 3000 && atomic.LoadInt64(&probes) < after+24 && agent.Alive(); w++ {
+		time.Sleep(2 * time.Millisecond)
+	}
+	close(stop)
+	pwg.Wait()
+	r.Add("healthy_probes", int(atomic.LoadInt64(&probes)))
+	r.Add("fault_injections", inj)
+	r.Set("statuses_of_faulty_requests_"+ln.name, statusSeen)
+	r.Sample(map[string]interface{}{"config": ln.name, "injections": inj, "probes": atomic.LoadInt64(&probes), "probe_failures": atomic.LoadInt64(&probeFails)})
+	for _, ex := range core.CrashMarkers(agent.LogPath) {
+		r.Violate(core.CrashSignature(ex), "agent crashed: "+ex, nil, nil)
+	}
+}
+
+// c07Refused starts a second agent of the same configuration whose backend
+// address is a closed port and issues one request through it.
+func c07Refused(r *core.Run, agentBin string, md *fakes.Metadata, ln c07Lane, li, inj int) (*fakes.Upload, bool) {
+	px, err := fakes.NewProxy()
+	if err != nil {
+		r.Broken(err.Error())
+		return nil, false
+	}
+	defer px.Close()
+	px.ListWait = 30 * time.Millisecond
+	closed := fmt.Sprintf("127.0.0.1:%d", core.FreePort())
+	agent, err := startAgent(r, agentBin, fmt.Sprintf("agent7r-%s-%d", ln.name, inj), md, px.URL(), closed, "b7r", ln.cfg...)
+	if err != nil {
+		r.Broken(err.Error())
+		return nil, false
+	}
+	defer agent.Kill()
+	id := fmt.Sprintf("refused-%d-%d", li, inj)
+	px.Enqueue(id, tokRequest("GET", id, 10, 0, "c07.example", nil, nil), "")
+	up, ok := px.Wait(id, 15*time.Second)
+	// the agent must still be alive and still polling afterwards
+	n := px.Lists()
+	time.Sleep(150 * time.Millisecond)
+	if !agent.Alive() {
+		r.Violate("C07:agent-terminated:"+ln.name+":backend/refused", "the agent exited after a request to an unreachable backend: "+core.Trunc(tail(agent.Log(), 800), 800), nil, nil)
+	} else if px.Lists() == n {
+		r.Violate("C07:agent-stopped-polling:"+ln.name+":backend/refused", "the agent stopped polling after a request to an unreachable backend", nil, nil)
+	}
+	for _, ex := range core.CrashMarkers(agent.LogPath) {
+		r.Violate(core.CrashSignature(ex), "agent crashed: "+ex, nil, nil)
+	}
+	return up, ok
 }
